@@ -7,7 +7,8 @@ use engine::util::{decode, hash64, Fams};
 use engine::{Aggregate, CaseOut, Meta, Space};
 use rink_core::output::{QueryError, QueryReply};
 use rink_core::parsing::text_query;
-use rink_core::types::Number;
+use rink_core::types::{BaseUnit, BigInt, BigRat, Dimensionality, Number, Numeric};
+use std::time::Duration;
 use rink_core::Context;
 use serde_json::{json, Value};
 
@@ -60,8 +61,12 @@ pub struct C15 {
     fams: Fams,
     depth: u64,
     db_order: u32,
+    /// never evaluated in this process: only forked copies of it answer queries
     pristine: Lazy<Context>,
     pristine_dates: Lazy<Context>,
+    /// the subject's starting point, likewise only ever used inside a forked copy
+    subject: Lazy<Context>,
+    subject_dates: Lazy<Context>,
     reg_hash: Lazy<u64>,
 }
 
@@ -81,7 +86,7 @@ impl C15 {
         fams.add("all histories over 6 queries + flag on + flag off", vec![TOG_LETTERS.pow(d_tog)]);
         fams.add("every conversion / command spelling between a plain result and a use of ans", vec![NON_PLAIN.len() as u64, 2]);
         fams.add("date literals on a context with overlapping user date patterns: all histories of depth 3", vec![(DATE_LETTERS.len() as u64).pow(3)]);
-        C15 { fams, depth, db_order, pristine: Lazy::new(), pristine_dates: Lazy::new(), reg_hash: Lazy::new() }
+        C15 { fams, depth, db_order, pristine: Lazy::new(), pristine_dates: Lazy::new(), subject: Lazy::new(), subject_dates: Lazy::new(), reg_hash: Lazy::new() }
     }
 }
 
@@ -134,6 +139,27 @@ fn cheap_fingerprint(c: &Context) -> (usize, usize, usize, usize, usize, usize, 
     )
 }
 
+/// The register crosses a process boundary (the reference is evaluated in a forked copy): exact
+/// text of numerator and denominator, or the bits of a float, plus the unit's powers.
+fn enc_num(n: &Number) -> Value {
+    let value = match &n.value {
+        Numeric::Rational(r) => json!({"r": [r.numer().to_string(), r.denom().to_string()]}),
+        Numeric::Float(f) => json!({"f": f.to_bits()}),
+    };
+    json!({"v": value, "u": n.unit.iter().map(|(k, p)| json!([k.to_string(), p])).collect::<Vec<_>>()})
+}
+
+fn dec_num(v: &Value) -> Number {
+    let value = if let Some(r) = v["v"].get("r") {
+        let big = |x: &Value| BigInt::from_str_radix(x.as_str().unwrap(), 10).ok().unwrap();
+        Numeric::Rational(BigRat::ratio(&big(&r[0]), &big(&r[1])))
+    } else {
+        Numeric::Float(f64::from_bits(v["v"]["f"].as_u64().unwrap()))
+    };
+    let unit: Dimensionality = v["u"].as_array().unwrap().iter().map(|e| (BaseUnit::new(e[0].as_str().unwrap()), e[1].as_i64().unwrap())).collect();
+    Number { value, unit }
+}
+
 fn state_key(reg: &Option<Number>, flag: bool) -> u64 {
     match reg {
         None => hash64(&("none", flag)),
@@ -142,7 +168,7 @@ fn state_key(reg: &Option<Number>, flag: bool) -> u64 {
 }
 
 struct Stepper<'a> {
-    l: Context,
+    l: &'a mut Context,
     p: &'a mut Context,
     flag: bool,
     reg: Option<Number>,
@@ -151,16 +177,16 @@ struct Stepper<'a> {
     transitions: u64,
     bad: Vec<(String, String)>,
     history: Vec<String>,
-    /// build the reference context anew before every step (not only for every history)
-    fresh_reference: Option<fn() -> Context>,
 }
 
 impl<'a> Stepper<'a> {
-    fn new(p: &'a mut Context, flag: bool) -> Stepper<'a> {
-        let mut l = fresh_ctx();
+    /// `l`: a loaded context that has not answered anything yet (the caller runs in a forked copy
+    /// of the worker, so this is a private copy); `p`: another one, which stays that way - the
+    /// reference replies come from forked copies of it.
+    fn new(l: &'a mut Context, p: &'a mut Context, flag: bool) -> Stepper<'a> {
         l.save_previous_result = flag;
-        let fp0 = cheap_fingerprint(&l);
-        Stepper { l, p, flag, reg: None, fp0, states: vec![state_key(&None, flag)], transitions: 0, bad: vec![], history: vec![], fresh_reference: None }
+        let fp0 = cheap_fingerprint(l);
+        Stepper { l, p, flag, reg: None, fp0, states: vec![state_key(&None, flag)], transitions: 0, bad: vec![], history: vec![] }
     }
 
     fn hist_text(&self) -> String {
@@ -183,43 +209,52 @@ impl<'a> Stepper<'a> {
     fn step_q(&mut self, q: &str, plain: bool) {
         self.history.push(q.to_string());
         // subject: the public helper, on the long-lived context
-        let got = rink_core::eval(&mut self.l, q);
-        if let Some(mk) = self.fresh_reference {
-            *self.p = mk();
-        }
-        // reference: a pristine context evaluated through a shared reference, with only the
-        // previous answer and the clock preset
-        self.p.previous_result = self.reg.clone();
-        self.p.save_previous_result = self.flag;
-        self.p.now = self.l.now;
-        let want = {
-            let pr: &Context = &*self.p;
-            let mut it = text_query::TokenIterator::new(q.trim()).peekable();
-            let query = text_query::parse_query(&mut it);
-            pr.eval_query(&query)
+        let got = rink_core::eval(self.l, q);
+        let got_ser = ser(&got).to_string();
+        // reference: a context that has never answered a query - a forked copy of the loaded
+        // database - with only the previous answer, the flag and the clock preset.  Nothing the
+        // evaluation does to that copy can reach a later step.
+        let reg_enc = self.reg.as_ref().map(enc_num);
+        let (flag, now) = (self.flag, self.l.now);
+        let p: &mut Context = self.p;
+        let answer = engine::forked::in_fork(
+            move || {
+                p.previous_result = reg_enc.as_ref().map(dec_num);
+                p.save_previous_result = flag;
+                p.now = now;
+                let want = {
+                    let pr: &Context = &*p;
+                    let mut it = text_query::TokenIterator::new(q.trim()).peekable();
+                    let query = text_query::parse_query(&mut it);
+                    pr.eval_query(&query)
+                };
+                // the model's transition: the most recent successful numeric result of a plain expression
+                let mut new_reg: Option<Value> = None;
+                if flag && plain {
+                    match &want {
+                        Ok(QueryReply::Number(p)) => new_reg = p.raw_value.as_ref().map(enc_num),
+                        Ok(QueryReply::Duration(d)) => new_reg = d.raw.raw_value.as_ref().map(enc_num),
+                        _ => {}
+                    }
+                }
+                json!({"ser": ser(&want).to_string(), "reg": new_reg}).to_string().into_bytes()
+            },
+            Duration::from_secs(120),
+        );
+        let answer: Value = match answer {
+            Ok(b) => serde_json::from_slice(&b).expect("reference reply is JSON"),
+            Err(e) => panic!("the reference evaluation of `{}` after [{}] ended abnormally: {}", q, self.hist_text(), e),
         };
+        let want_ser = answer["ser"].as_str().unwrap_or("").to_string();
         self.transitions += 1;
-        if ser(&got) != ser(&want) {
+        if got_ser != want_ser {
             self.bad.push((
                 "reply differs from the reply of a fresh context with the same previous answer".into(),
-                format!("after [{}] (flag {}): got {} but a fresh context gives {}", self.hist_text(), self.flag, engine::util::clip(&ser(&got).to_string(), 300), engine::util::clip(&ser(&want).to_string(), 300)),
+                format!("after [{}] (flag {}): got {} but a fresh context gives {}", self.hist_text(), self.flag, engine::util::clip(&got_ser, 300), engine::util::clip(&want_ser, 300)),
             ));
         }
-        // model transition
-        if self.flag && plain {
-            match &want {
-                Ok(QueryReply::Number(p)) => {
-                    if let Some(raw) = &p.raw_value {
-                        self.reg = Some(raw.clone());
-                    }
-                }
-                Ok(QueryReply::Duration(d)) => {
-                    if let Some(raw) = &d.raw.raw_value {
-                        self.reg = Some(raw.clone());
-                    }
-                }
-                _ => {}
-            }
+        if !answer["reg"].is_null() {
+            self.reg = Some(dec_num(&answer["reg"]));
         }
         if self.l.previous_result != self.reg {
             self.bad.push((
@@ -229,8 +264,8 @@ impl<'a> Stepper<'a> {
             // resynchronise so that one defect is reported once per history, not at every later step
             self.reg = self.l.previous_result.clone();
         }
-        if cheap_fingerprint(&self.l) != self.fp0 {
-            self.bad.push(("database or settings changed by a query".into(), format!("after [{}]: {:?} vs {:?}", self.hist_text(), cheap_fingerprint(&self.l), self.fp0)));
+        if cheap_fingerprint(self.l) != self.fp0 {
+            self.bad.push(("database or settings changed by a query".into(), format!("after [{}]: {:?} vs {:?}", self.hist_text(), cheap_fingerprint(self.l), self.fp0)));
         }
         self.states.push(state_key(&self.reg, self.flag));
     }
@@ -268,9 +303,10 @@ impl Space for C15 {
         Meta {
             id: "C15",
             level: "model_checking",
-            rule: format!("explicit-state exploration over a 16-query alphabet (one per reply kind and per way of touching ans: numbers, ans/_/ANS uses, an error, conversions, a definition lookup, units for, search, a time-valued result, a substance, a date, a unit list, an inline definition and a use of its name) with the feature flag on and off: every history up to depth {} is replayed on a freshly loaded real Context through rink_core::eval, and one long-lived Context is fed a de Bruijn sequence B(16,{}) (every length-{} window from a different non-initial state). Plus every history of depth {} over 6 queries and the two settings changes <flag on>/<flag off> made between queries on one context (initially off). Plus `2 m ; X ; ans` for 34 spellings X of conversions and commands (every base/digits/notation modifier, `to`/`in`, unit lists, date and temperature conversions, units for / factorize / search / definition lookups). Plus all depth-3 histories over 5 date literals and a number on a context that has user date patterns with overlapping readings loaded (reference: a pristine context with the same patterns). Model = one register (ans) and the flag. At every transition: serialised reply == reply of a pristine context evaluated through a shared reference with previous_result := register; ans == register; registry sizes/settings unchanged; full Debug dump of the registry compared at the end of histories. state = (register value, dimensionality, flag)", self.depth, self.db_order, self.db_order, self.tog_depth()),
+            rule: format!("explicit-state exploration over a 16-query alphabet (one per reply kind and per way of touching ans: numbers, ans/_/ANS uses, an error, conversions, a definition lookup, units for, search, a time-valued result, a substance, a date, a unit list, an inline definition and a use of its name) with the feature flag on and off: every history up to depth {} is replayed through rink_core::eval on a real Context that has answered nothing before (each history runs in a forked copy of the worker process, on its copy of a database that the worker loaded and never queried), and one long-lived Context is fed a de Bruijn sequence B(16,{}) (every length-{} window from a different non-initial state). Plus every history of depth {} over 6 queries and the two settings changes <flag on>/<flag off> made between queries on one context (initially off). Plus `2 m ; X ; ans` for 34 spellings X of conversions and commands (every base/digits/notation modifier, `to`/`in`, unit lists, date and temperature conversions, units for / factorize / search / definition lookups). Plus all depth-3 histories over 5 date literals and a number on a context that has user date patterns with overlapping readings loaded (reference: never-queried copies of a context with the same patterns). Model = one register (ans) and the flag. At every transition: serialised reply == reply of a context that has never answered a query (a forked copy of the loaded database, discarded after the one reply, so that no state hidden behind `&Context` can reach a later step) with previous_result := register; ans == register; registry sizes/settings unchanged; full Debug dump of the registry compared at the end of histories. state = (register value, dimensionality, flag)", self.depth, self.db_order, self.db_order, self.tog_depth()),
             assumptions: vec![
-                "the model register is updated from the pristine context's reply, so the reference is exactly the statement's 'fresh context with the same previous answer'".into(),
+                "the model register is updated from the never-queried context's reply, so the reference is exactly the statement's 'fresh context with the same previous answer'; the register crosses the process boundary as exact numerator/denominator text (or float bits) plus unit powers".into(),
+                "a forked copy of a loaded Context behaves like a newly loaded one: loading is deterministic (C12) and the copy shares no memory with later steps".into(),
                 "full registry dumps are compared at the end of every 16th history (every history in the thorough tier) and every 512 steps of the de Bruijn run; cheap size fingerprints at every transition".into(),
             ],
             exhaustive: true,
@@ -300,8 +336,9 @@ impl Space for C15 {
     fn chunk(&self) -> u64 {
         16
     }
-    fn time_limit(&self, _idx: u64) -> std::time::Duration {
-        std::time::Duration::from_secs(300)
+    fn time_limit(&self, idx: u64) -> std::time::Duration {
+        // the de Bruijn runs are single long cases
+        std::time::Duration::from_secs(if self.fams.locate(idx).0 == 2 { 1800 } else { 300 })
     }
     fn heavy(&self) -> Vec<(u64, u64)> {
         let n = self.fams.fams[0].2 + self.fams.fams[1].2;
@@ -310,6 +347,8 @@ impl Space for C15 {
     fn reset(&mut self) {
         self.pristine.clear();
         self.pristine_dates.clear();
+        self.subject.clear();
+        self.subject_dates.clear();
     }
     fn coverage_extra(&self, agg: &Aggregate) -> Value {
         json!({
@@ -320,25 +359,37 @@ impl Space for C15 {
         })
     }
     fn run(&mut self, idx: u64) -> CaseOut {
+        // Everything the case needs is loaded here, in the worker, and used only in the forked
+        // copy that runs the case: the worker's contexts never answer a query.
+        let (f, _) = self.fams.locate(idx);
+        self.reg_hash.get(|| hash64(&format!("{:?}", fresh_ctx().registry)));
+        if f == 5 {
+            self.pristine_dates.get(ctx_with_user_patterns);
+            self.subject_dates.get(ctx_with_user_patterns);
+        } else {
+            self.pristine.get(fresh_ctx);
+            self.subject.get(fresh_ctx);
+        }
+        let limit = if f == 2 { Duration::from_secs(1700) } else { Duration::from_secs(280) };
+        let this: &mut C15 = self;
+        engine::forked::case_in_fork(move || this.run_here(idx), limit)
+    }
+}
+
+impl C15 {
+    fn run_here(&mut self, idx: u64) -> CaseOut {
         let (f, d) = self.fams.locate(idx);
         let flag = if f < 2 { f == 0 } else if f == 3 { false } else if f == 4 { d[1] == 1 } else if f == 5 { true } else { d[0] == 1 };
         let hist_depth = if f < 2 { self.hist_depth(f) } else { 0 };
         let thorough = self.depth >= 4;
         let tog_depth = if f == 3 { self.tog_depth() } else { 0 };
         let ref_hash = *self.reg_hash.get(|| hash64(&format!("{:?}", fresh_ctx().registry)));
-        if f == 5 {
-            // date parsing is where a `&Context` could hide a memory (a Cell): the reference context
-            // is built anew for every history, so that it cannot carry anything over either
-            self.pristine_dates.clear();
-        }
-        let p = if f == 5 { self.pristine_dates.get(ctx_with_user_patterns) } else { self.pristine.get(fresh_ctx) };
-        let mut st = Stepper::new(p, flag);
-        if f == 5 {
-            st.fresh_reference = Some(ctx_with_user_patterns);
-            st.l.load_date_file(USER_PATTERNS);
-            st.fp0 = cheap_fingerprint(&st.l);
-            st.fp0.11 = flag;
-        }
+        let (l, p) = if f == 5 {
+            (self.subject_dates.0.as_mut().expect("loaded by run()"), self.pristine_dates.0.as_mut().expect("loaded by run()"))
+        } else {
+            (self.subject.0.as_mut().expect("loaded by run()"), self.pristine.0.as_mut().expect("loaded by run()"))
+        };
+        let mut st = Stepper::new(l, p, flag);
         let mut full = 0u64;
         if f < 2 {
             let letters = decode(d[1], &vec![ALPHA.len() as u64; hist_depth]);
